@@ -84,17 +84,22 @@ def expCreateTrials (v : World) (e : ExpO) (st : ExpSt) (ts : List TrialO) (add 
       let creates := assignments.foldr (fun a k => Prog.step (.trialCreate (mkTrial e a)) k k) (expFinish e st)
       if s.requests ≠ req then .step (.sugUpdateReq e.key s.rv req) creates (.done .err) else creates
 
+def activeCount (st : ExpSt) : Int := cnt st.counts 6 + cnt st.counts 4
+def completedCount (st : ExpSt) : Int :=
+  cnt st.counts 2 + cnt st.counts 1 + cnt st.counts 0 + cnt st.counts 3 + cnt st.counts 5
+
+/-- `addCount = min(maxTrialCount − completed, parallelTrialCount) − active`, clamped at 0 -/
+def addCount (e : ExpO) (st : ExpSt) : Int :=
+  let required := match e.maxT with
+    | none => e.par
+    | some m => if m - completedCount st > e.par then e.par else m - completedCount st
+  if required - activeCount st < 0 then 0 else required - activeCount st
+
 /-- `ReconcileTrials` -/
 def expReconcileTrials (v : World) (e : ExpO) (st : ExpSt) (ts : List TrialO) (now : Nat) : Prog :=
-  let active := cnt st.counts 6 + cnt st.counts 4
-  let completed := cnt st.counts 2 + cnt st.counts 1 + cnt st.counts 0 + cnt st.counts 3 + cnt st.counts 5
-  if active > e.par then .done .err        -- deleteTrials: shown unreachable without a spec edit; not modelled further
-  else if active < e.par then
-    let required := match e.maxT with
-      | none => e.par
-      | some m => if m - completed > e.par then e.par else m - completed
-    let add := if required - active < 0 then 0 else required - active
-    if add > 0 then expCreateTrials v e st ts add now else expFinish e st
+  if activeCount st > e.par then .done .err        -- deleteTrials: shown unreachable without a spec edit; not modelled further
+  else if activeCount st < e.par then
+    if addCount e st > 0 then expCreateTrials v e st ts (addCount e st) now else expFinish e st
   else expFinish e st
 
 /-- `ReconcileExperiment` and what follows it in `Reconcile` -/
@@ -184,28 +189,35 @@ def trialUpdateCondition (t : TrialO) (st : TrialSt) (js : JobCond) (now : Nat) 
       trialFinish t { st with conds := Cond.set st.conds .running true rTrialRunning now }
     else trialFinish t st
 
-/-- the part of `reconcileTrial` after `reconcileJob` returned a deployed job in state `js` -/
+/-- `GetDeployedJobStatus`: failure condition first, then success, else "running" unless the Trial already is -/
+def jsOf (state : JobState) (running : Bool) : Option JobCond :=
+  match state with
+  | .failed => some .failed
+  | .both => some .failed
+  | .succeeded => some .succeeded
+  | .running => if !running then some .running else none
+
+/-- `reconcileTrial` once the job status `js` is known: read the observation when due, requeue while a succeeded
+    job's metrics are missing, else update the conditions -/
+def trialObserve (v : World) (t : TrialO) (js : JobCond) (now : Nat) : Prog :=
+  let cont (st : TrialSt) : Prog :=
+    if js = .succeeded && st.obs.isNone && !t.push then .done .requeueAfter
+    else trialUpdateCondition t st js now
+  if js = .succeeded || tHas t .earlyStopped then
+    let logs := dbOf v t.key.name
+    if logs.isEmpty then .step (.dbGet t.key.name) (cont t.st) (.done .err)
+    else match Metrics.getMetrics logs [objMetric] with
+      | some ms => .step (.dbGet t.key.name) (cont { t.st with obs := some ms }) (.done .err)
+      | none => .step (.dbGet t.key.name) (.done .err) (.done .err)
+  else cont t.st
+
+/-- the part of `reconcileTrial` after `reconcileJob` returned a deployed job in state `state` -/
 def trialAfterJob (v : World) (t : TrialO) (state : JobState) (now : Nat) : Prog :=
   if !(!tCompleted t || tHas t .earlyStopped) then trialFinish t t.st
   else
-    let js : Option JobCond := match state with
-      | .failed => some .failed
-      | .both => some .failed
-      | .succeeded => some .succeeded
-      | .running => if !tHas t .running then some .running else none
-    match js with
+    match jsOf state (tHas t .running) with
     | none => trialFinish t t.st
-    | some js =>
-      let cont (st : TrialSt) : Prog :=
-        if js = .succeeded && st.obs.isNone && !t.push then .done .requeueAfter
-        else trialUpdateCondition t st js now
-      if js = .succeeded || tHas t .earlyStopped then
-        let logs := dbOf v t.key.name
-        if logs.isEmpty then .step (.dbGet t.key.name) (cont t.st) (.done .err)
-        else match Metrics.getMetrics logs [objMetric] with
-          | some ms => .step (.dbGet t.key.name) (cont { t.st with obs := some ms }) (.done .err)
-          | none => .step (.dbGet t.key.name) (.done .err) (.done .err)
-      else cont t.st
+    | some js => trialObserve v t js now
 
 def trialPlan (v : World) (k : Key2) (now : Nat) : Prog :=
   match findTrial v k with
@@ -246,60 +258,72 @@ def sugErr (s : SugO) (st : SugSt) : Prog :=
 def sentTrials (ts : List TrialO) : List String :=
   sortS ((ts.filter (fun t => !tHas t .metricsUnavailable && !(tHas t .earlyStopped && !obsAvailable t.st))).map (·.key.name))
 
+/-- how many assignments the (possibly faulty) algorithm service answers with -/
+def replyCount (env : SugEnv) (cur : Int) : Nat :=
+  if env.algoMode = 1 then (cur - 1).toNat else if env.algoMode = 2 then (cur + 1).toNat else cur.toNat
+
+/-- the status after appending the `k` names of one reply -/
+def sugAppend (v : World) (s : SugO) (st : SugSt) (k : Nat) : SugSt :=
+  { st with names := st.names ++ freshNames s.key.name v.algoN k,
+            count := ((st.names ++ freshNames s.key.name v.algoN k).length : Nat) }
+
+/-- `SyncAssignments` after `GetSuggestions` answered with `k` assignments -/
+def sugAfterReply (v : World) (s : SugO) (st : SugSt) (env : SugEnv) (k : Nat) (cur : Int) : Prog :=
+  if (k : Int) ≠ cur then sugErr s st
+  else if s.es then .step (.rpcGetRules s.key.name (env.esMode = 0)) (sugFinish s (sugAppend v s st k)) (sugErr s st)
+  else sugFinish s (sugAppend v s st k)
+
 /-- `SyncAssignments` -/
 def sugSync (v : World) (s : SugO) (st : SugSt) (ts : List TrialO) (env : SugEnv) : Prog :=
   let cur := s.requests - st.count
   if cur ≤ 0 then sugFinish s st
+  else if env.algoMode = 3 then
+    .step (.rpcGetSuggestions s.key.name cur s.requests (sentTrials ts) 0 false) (sugErr s st) (sugErr s st)
   else
-    let sent := sentTrials ts
-    if env.algoMode = 3 then
-      .step (.rpcGetSuggestions s.key.name cur s.requests sent 0 false) (sugErr s st) (sugErr s st)
-    else
-      let k : Nat := if env.algoMode = 1 then (cur - 1).toNat else if env.algoMode = 2 then (cur + 1).toNat else cur.toNat
-      let names := freshNames s.key.name v.algoN k
-      let st' : SugSt := { st with names := st.names ++ names, count := ((st.names ++ names).length : Nat) }
-      let afterRules := sugFinish s st'
-      let afterReply : Prog :=
-        if (k : Int) ≠ cur then sugErr s st
-        else if s.es then .step (.rpcGetRules s.key.name (env.esMode = 0)) afterRules (sugErr s st)
-        else afterRules
-      .step (.rpcGetSuggestions s.key.name cur s.requests sent k true) afterReply (sugErr s st)
+    .step (.rpcGetSuggestions s.key.name cur s.requests (sentTrials ts) (replyCount env cur) true)
+      (sugAfterReply v s st env (replyCount env cur) cur) (sugErr s st)
 
 def createIfAbsent (present : Bool) (c : Call) (next fail : Prog) : Prog :=
   if present then next else .step c next fail
 
+/-- `ReconcileSuggestion` after the Deployment was found ready: experiment and trials, validation, sync -/
+def sugTail (v : World) (s : SugO) (st1 : SugSt) (env : SugEnv) (now : Nat) : Prog :=
+  match findExp v s.key with
+  | none => sugErr s st1
+  | some _ =>
+    let ts := trialsOf v s.key
+    if !Cond.has st1.conds .running then
+      let running := { st1 with conds := sugMarkRunning st1.conds true rSugRunning now }
+      let failed := sugFinish s { st1 with conds := sugMarkFailed st1.conds rSugFailed now }
+      let afterValidate : Prog :=
+        if s.es then .step .rpcValidateES (sugSync v s running ts env) failed else sugSync v s running ts env
+      .step (.rpcValidate s.key.name) afterValidate failed
+    else sugSync v s st1 ts env
+
+def sugDeploy (v : World) (s : SugO) (env : SugEnv) (now : Nat) : Prog :=
+  let dk := infraKey s.key
+  let st0 := s.st
+  match findDeploy v dk with
+  | none =>
+    .step (.deployCreate dk)
+      (sugFinish s { st0 with conds := Cond.set st0.conds .deploymentReady false rSugDeployNotReady now }) (sugErr s st0)
+  | some d =>
+    if !d.ready then sugFinish s { st0 with conds := Cond.set st0.conds .deploymentReady false rSugDeployNotReady now }
+    else sugTail v s { st0 with conds := Cond.set st0.conds .deploymentReady true rSugDeployReady now } env now
+
+def sugRbac (v : World) (s : SugO) (env : SugEnv) (now : Nat) : Prog :=
+  let dk := infraKey s.key
+  if s.es then
+    createIfAbsent (v.sas.contains dk) (.saCreate dk)
+      (createIfAbsent (v.roles.contains dk) (.roleCreate dk)
+        (createIfAbsent (v.rbs.contains dk) (.rbCreate dk) (sugDeploy v s env now) (sugErr s s.st)) (sugErr s s.st)) (sugErr s s.st)
+  else sugDeploy v s env now
+
 /-- `ReconcileSuggestion` -/
 def sugReconcile (v : World) (s : SugO) (env : SugEnv) (now : Nat) : Prog :=
   let dk := infraKey s.key
-  let st0 := s.st
-  let tail (st1 : SugSt) : Prog :=
-    match findExp v s.key with
-    | none => sugErr s st1
-    | some _ =>
-      let ts := trialsOf v s.key
-      if !Cond.has st1.conds .running then
-        let running := { st1 with conds := sugMarkRunning st1.conds true rSugRunning now }
-        let failed := sugFinish s { st1 with conds := sugMarkFailed st1.conds rSugFailed now }
-        let afterValidate : Prog :=
-          if s.es then .step .rpcValidateES (sugSync v s running ts env) failed else sugSync v s running ts env
-        .step (.rpcValidate s.key.name) afterValidate failed
-      else sugSync v s st1 ts env
-  let deploy : Prog :=
-    match findDeploy v dk with
-    | none =>
-      .step (.deployCreate dk)
-        (sugFinish s { st0 with conds := Cond.set st0.conds .deploymentReady false rSugDeployNotReady now }) (sugErr s st0)
-    | some d =>
-      if !d.ready then sugFinish s { st0 with conds := Cond.set st0.conds .deploymentReady false rSugDeployNotReady now }
-      else tail { st0 with conds := Cond.set st0.conds .deploymentReady true rSugDeployReady now }
-  let rbac : Prog :=
-    if s.es then
-      createIfAbsent (v.sas.contains dk) (.saCreate dk)
-        (createIfAbsent (v.roles.contains dk) (.roleCreate dk)
-          (createIfAbsent (v.rbs.contains dk) (.rbCreate dk) deploy (sugErr s st0)) (sugErr s st0)) (sugErr s st0)
-    else deploy
-  let svc : Prog := createIfAbsent (v.svcs.contains dk) (.svcCreate dk) rbac (sugErr s st0)
-  if s.resume = .fromVolume then createIfAbsent (v.pvcs.contains dk) (.pvcCreate dk) svc (sugErr s st0) else svc
+  let svc : Prog := createIfAbsent (v.svcs.contains dk) (.svcCreate dk) (sugRbac v s env now) (sugErr s s.st)
+  if s.resume = .fromVolume then createIfAbsent (v.pvcs.contains dk) (.pvcCreate dk) svc (sugErr s s.st) else svc
 
 def sugPlan (v : World) (k : Key2) (env : SugEnv) (now : Nat) : Prog :=
   match findSug v k with
